@@ -292,6 +292,115 @@ def in_class(k, flat):
     if not pred: return True
     return all(a in flat and flat[a] == b for a, b in pred.items())
 
+# ------------------------------------------------------------------------------------------------ bounded stand-in: the external runtime
+# The first sentence of the property ("the interpreter prepares the model and its outputs track the float model") is about the LiteRT runtime,
+# which no contract on the repository decides.  The ACCEPTED set is finite, so every accepted (operator, config, algorithm) point is pushed once
+# through the REAL public pipeline on a model containing that operator and through the real interpreter.  Labelled bounded (one model, one seeded
+# sample per point); never counted as proved.
+E2E_MODELS = {   # operator selector -> fixtures under tests/models that contain that operator (INPUT / OUTPUT apply to any model)
+    'FULLY_CONNECTED': ('single_fc_bias',), 'CONV_2D': ('conv_fc_mnist',), 'DEPTHWISE_CONV_2D': ('single_depthwise_conv2d_bias',),
+    'CONV_2D_TRANSPOSE': ('single_conv2d_transpose_bias',), 'BATCH_MATMUL': ('bmm_constant_input', 'bmm'), 'EMBEDDING_LOOKUP': ('embedding_lookup',),
+    'ADD': ('single_add',), 'SUB': ('single_sub',), 'MUL': ('single_mul',), 'MEAN': ('single_mean',), 'RSQRT': ('single_rsqrt',), 'TANH': ('single_tanh',),
+    'GELU': ('single_gelu',), 'SPLIT': ('single_split',), 'STRIDED_SLICE': ('single_strided_slice',), 'TRANSPOSE': ('single_transpose',),
+    'CONCATENATION': ('two_inputs_concatenation',), 'LOGISTIC': ('single_fc_bias_logistic',), 'SOFTMAX': ('conv_fc_mnist',), 'AVERAGE_POOL_2D': ('conv_fc_mnist',),
+    'RESHAPE': ('conv_fc_mnist',), 'INPUT': ('single_fc_bias',), 'OUTPUT': ('single_fc_bias',)}
+E2E_REL, E2E_STEPS, E2E_FP16_REL = 0.2, 4, 0.01
+E2E_RULE = (f'max|q - f| <= {E2E_REL} * (max|f| + 1e-3) + {E2E_STEPS} * step over all outputs, q = (dequantized) output of the quantized model and f = output of the float model on the '
+            f'same calibration sample; step = (max f - min f) / (2^activation_bits - 1) for static-range configs (the ideal output step of the calibrated range), 0 for '
+            f'float-activation modes; float16 casting: {E2E_FP16_REL} * (max|f| + 1e-3); additionally no exception anywhere, all outputs finite, output not constant when f is not')
+
+def e2e_model_path(name): return os.path.join(core.PKG, 'tests', 'models', name + '.tflite')
+
+def e2e_context(m, name, op_value, seed):
+    """float interpreter, two seeded samples and the float outputs on the first one, cached per (model, data kind)"""
+    import zlib
+    positive = op_value == 'RSQRT'
+    key = ('e2e', name, positive, seed)
+    if key in m.cache: return m.cache[key]
+    tiu = importlib.import_module('ai_edge_quantizer.utils.tfl_interpreter_utils')
+    fi = tiu.create_tfl_interpreter(e2e_model_path(name)); sigs = fi.get_signature_list()
+    rng = np.random.RandomState((zlib.crc32(name.encode()) + 7919 * int(seed)) % (2 ** 31))
+    if sigs:
+        sig = sorted(sigs)[0]; det = fi.get_signature_runner(sig).get_input_details()
+        def sample(): return {k: (rng.uniform(0.5, 2.0, size=d['shape']) if positive else rng.uniform(-1.0, 1.0, size=d['shape'])).astype(d['dtype']) for k, d in sorted(det.items())}
+        samples = [sample(), sample()]
+        ref = {k: np.array(v) for k, v in tiu.invoke_interpreter_signature(fi, samples[0], sig).items()}
+    else:       # a model without signature (embedding_lookup.tflite): positional int32 indices, never calibrated
+        sig = None; det = fi.get_input_details()
+        samples = [[rng.randint(0, 3, size=d['shape']).astype(d['dtype']) for d in det]]
+        tiu.invoke_interpreter_once(fi, samples[0]); ref = {str(i): np.array(fi.get_tensor(d['index'])) for i, d in enumerate(fi.get_output_details())}
+    ctx = dict(tiu=tiu, sig=sig, samples=samples, ref=ref); m.cache[key] = ctx; return ctx
+
+def eval_e2e(m, op, alg, s, name, seed=0):
+    """one accepted point through Quantizer.update_quantization_recipe / calibrate / quantize and the LiteRT interpreter.  None = sound."""
+    quantizer = importlib.import_module('ai_edge_quantizer.quantizer')
+    try: ctx = e2e_context(m, name, op.value, seed)
+    except Exception as e: return 'HARNESS: float model does not run: ' + describe(e)
+    tiu = ctx['tiu']; c = build(m, s)
+    try:
+        qz = quantizer.Quantizer(e2e_model_path(name))
+        qz.update_quantization_recipe(regex='.*', operation_name=op, op_config=c, algorithm_key=m.am.AlgorithmName(alg))
+    except ValueError: return None            # refused at update time: the sound outcome for an unsupported pair (only reached when replaying on another tree)
+    except Exception as e: return 'update_quantization_recipe raises ' + describe(e)
+    try:
+        cal = None
+        if qz.need_calibration:
+            if ctx['sig'] is None: return 'HARNESS: calibration needed for a model without signature'
+            cal = qz.calibrate(ctx['samples'])
+        res = qz.quantize(cal)
+    except Exception as e: return 'ACCEPTED at update time, but calibrate/quantize fails later: ' + describe(e)
+    try: qi = tiu.create_tfl_interpreter(res.quantized_model)
+    except Exception as e: return 'ACCEPTED, quantized, but the interpreter cannot prepare the model: ' + describe(e)
+    try:
+        if ctx['sig'] is not None:
+            raw = tiu.invoke_interpreter_signature(qi, ctx['samples'][0], ctx['sig']); det = qi.get_signature_runner(ctx['sig']).get_output_details()
+            out = {k: (np.array(v), det[k]['quantization_parameters']) for k, v in raw.items()}
+        else:
+            tiu.invoke_interpreter_once(qi, ctx['samples'][0])
+            out = {str(i): (np.array(qi.get_tensor(d['index'])), d['quantization_parameters']) for i, d in enumerate(qi.get_output_details())}
+    except Exception as e: return 'ACCEPTED, prepared, but invoking the quantized model fails: ' + describe(e)
+    if set(out) != set(ctx['ref']): return f'output names changed: {sorted(out)} vs {sorted(ctx["ref"])}'
+    srq = s[0] is not None and s[2] == 'INTEGER'
+    for k in sorted(out):
+        v, qp = out[k]; f = ctx['ref'][k].astype(np.float64); o = v.astype(np.float64)
+        if len(qp['scales']): o = (o - qp['zero_points']) * qp['scales']            # quantized model output (OUTPUT selector): dequantize
+        if o.shape != f.shape: return f'output {k}: shape {o.shape} vs float {f.shape}'
+        if not np.all(np.isfinite(o)): return f'output {k}: non-finite values although the float output is finite'
+        mag = float(np.abs(f).max()); step = float(f.max() - f.min()) / (2 ** s[0][0] - 1) if srq else 0.0
+        tol = (E2E_FP16_REL if alg == 'float_casting' else E2E_REL) * (mag + 1e-3) + E2E_STEPS * step
+        err = float(np.abs(o - f).max())
+        if err > tol: return f'output {k}: max |quantized - float| = {err:.6g} > tolerance {tol:.6g} (max|float| = {mag:.6g}; first values float {f.ravel()[:3]}, quantized {o.ravel()[:3]})'
+        if o.size > 1 and float(f.max() - f.min()) > 0 and float(o.max() - o.min()) == 0: return f'output {k}: constant {o.ravel()[0]} although the float output varies'
+    return None
+
+def runtime_standin(rep, m, fns, settle):
+    S = specs(m.q); seed = int(rep.seed or 0); cases = execs = nfail = 0; used = {}; uncovered = []; t_all = time.time()
+    for op in operators(m.q):
+        for alg in ALGS:
+            acc = [s for s in S if specific_add(m, op, alg, s)[0] == 'accepted']
+            if not acc: continue
+            names = [n for n in E2E_MODELS.get(op.value, ()) if os.path.exists(e2e_model_path(n))]
+            if not names: uncovered.append(dict(op=op.value, algorithm=alg, accepted_points=len(acc))); continue
+            used[op.value] = [n + '.tflite' for n in names]
+            t0 = time.time(); fails = []
+            for s in acc:
+                cases += 1
+                for name in names:
+                    execs += 1; f = eval_e2e(m, op, alg, s, name, seed)
+                    if f: fails.append((dict(kind='e2e', clause='e2e', op=op.value, algorithm=alg, config=enc(s), model=name, seed=seed), f)); break
+            nfail += len(fails)
+            if any(t.startswith('HARNESS') for _, t in fails): rep.errors.append(f'runtime stand-in harness failure for {op.value}: {[t for _, t in fails if t.startswith("HARNESS")][0]}'); continue
+            settle(f'C13/quantizer.Quantizer.quantize/runtime-sound.{op.value}.{alg}', fns['Q.quantize'], fails, time.time() - t0,
+                   f'every config accepted for ({op.value}, {alg}) yields, through the public pipeline on {names}, a model the LiteRT interpreter prepares and invokes, with finite outputs tracking the float model: {E2E_RULE}',
+                   len(acc), backend='bounded-native', bounded=True)
+    rep.add_bounded('Quantizer.update_quantization_recipe -> calibrate -> quantize -> LiteRT interpreter (allocate + invoke) for every ACCEPTED (operator, config, algorithm) point',
+                    f'all {cases} accepted points of the lattice, one fixture model per operator (BATCH_MATMUL: two), 2 seeded calibration samples (seed {seed}), compared on the first; {execs} pipeline executions',
+                    cases, nfail, 'tolerance: ' + E2E_RULE)
+    rep.extra['runtime_standin'] = dict(accepted_points_executed=cases, pipeline_executions=execs, failures=nfail, model_per_operator=used, operators_not_covered=uncovered,
+                                        tolerance=E2E_RULE, seed=seed, seconds=round(time.time() - t_all, 1),
+                                        note='CUSTOM_OP has no accepted point; the "*" selector lets through exactly the accepted specific pairs (clause c2), which are the points executed here')
+    return cases, nfail
+
 def run_case(inp, m=None):
     """re-executes one recorded (clause, operator, algorithm, config) on the real code -> (fails, observed)"""
     m = m or load_all()
@@ -299,6 +408,8 @@ def run_case(inp, m=None):
         if inp.get('kind') == 'tflite_type':
             f = check_type_table(m, inp['num_bits']); return (f is not None), (f or 'ok')
         s = dec(inp['config']); alg = inp['algorithm']; cl = inp['clause']
+        if cl == 'e2e':
+            f = eval_e2e(m, m.q.TFLOperationName(inp['op']), alg, s, inp['model'], inp.get('seed', 0)); return (f is not None), (f or 'the accepted pair runs and tracks the float model')
         if cl == 'c2u': f = eval_c2u(m, alg, s)
         else: f = EVAL[cl](m, m.q.TFLOperationName(inp['op']), alg, s)
         return (f is not None), (f or 'clause holds for this input')
@@ -380,23 +491,27 @@ def run(rep):
            'MMU.init': rep.fn(core.Fn(MMU, 'init_tensor_min_max')), 'MMU.qp': rep.fn(core.Fn(MMU, '_get_tensor_quant_params')), 'MMU.rd': rep.fn(core.Fn(MMU, '_get_reduce_dims')),
            'DP.unroll': rep.fn(core.Fn(DP, '_unroll_json_config')), 'DP.update': rep.fn(core.Fn(DP, 'update_default_config_policy')),
            'QT.post': rep.fn(core.Fn(QT, 'OpQuantizationConfig.__post_init__')), 'QTEN.type': rep.fn(core.Fn(QTEN, 'quant_params_to_tflite_type')),
-           'QTEN.nl': rep.fn(core.Fn(QTEN, 'nonlinear_quant_params_to_tflite_type')), 'UQT.bias': rep.fn(core.Fn(UQT, 'symmetric_quantize_bias_tensor'))}
+           'QTEN.nl': rep.fn(core.Fn(QTEN, 'nonlinear_quant_params_to_tflite_type')), 'UQT.bias': rep.fn(core.Fn(UQT, 'symmetric_quantize_bias_tensor')),
+           'Q.update': rep.fn(core.Fn('quantizer.py', 'Quantizer.update_quantization_recipe')), 'Q.calibrate': rep.fn(core.Fn('quantizer.py', 'Quantizer.calibrate')),
+           'Q.quantize': rep.fn(core.Fn('quantizer.py', 'Quantizer.quantize'))}
     rep.trust('CPython executes the real functions on every point of the finite lattice; dataclass __eq__ (policy membership), enum and numpy are the real library code')
     rep.trust('the module-level registrations of algorithm_manager.py (operators, validation functions, DEFAULT_CONFIG_CHECK_POLICY) are the state the API runs with; '
               'Quantizer.load_config_policy (a user-supplied policy) is outside the quantifier')
     rep.trust('materialisation is exercised on one representative constant weight per operator (rank and shape of that operator), one runtime input and one output with calibrated min/max; '
               'the control flow of the exercised functions depends on the config, operator name and tensor rank only')
-    rep.assume('NOT decided here: "the interpreter prepares the model and its outputs track the float model" is the external LiteRT runtime; '
-               'soundness of an accepted pair is decided up to the point where tensor parameters, transformations and tflite dtypes are produced')
+    rep.assume('NOT decided by a contract: "the interpreter prepares the model and its outputs track the float model" is the external LiteRT runtime; the obligations decide '
+               'soundness of an accepted pair up to the point where tensor parameters, transformations and tflite dtypes are produced, and a BOUNDED stand-in runs every accepted point '
+               'once through the public pipeline and the real interpreter (one fixture model per operator, one seeded sample)')
     rep.assume('skip_checks=True configs are outside this property by its statement; block sizes are {0, 32}; activation configs are TENSORWISE INT as in the quantifier')
     if m.am._alg_manager_instance._config_check_policy_registry.get(m.am.AlgorithmName.MIN_MAX_UNIFORM_QUANT) is not m.dp.DEFAULT_CONFIG_CHECK_POLICY:
         rep.errors.append('the policy registered for min_max_uniform_quantize is not default_policy.DEFAULT_CONFIG_CHECK_POLICY'); return
     S = specs(q); OPS = operators(q)
     kf_seen = {}
-    def settle(oid, fn, fails, dt, clause, ncases):
+    def settle(oid, fn, fails, dt, clause, ncases, backend='exhaustive-native', bounded=False):
         if not fails:
-            rep.add(core.Ob(oid, fn, 'exhaustive-native', core.PROVED, dt, clause=clause)); return core.PROVED
-        k = rep.finding_for(oid); rest = fails; backend = 'exhaustive-native'
+            if not bounded: rep.add(core.Ob(oid, fn, backend, core.PROVED, dt, clause=clause))      # bounded stand-ins are never counted as proved
+            return core.PROVED
+        k = rep.finding_for(oid); rest = fails
         if k is not None:
             rest = []
             for inp, txt in fails:
@@ -424,6 +539,9 @@ def run(rep):
         t0 = time.time(); f = check_type_table(m, bits)
         settle(f'C13/quantize_tensor.quant_params_to_tflite_type/defined.b{bits}', fns['QTEN.type'], [(dict(kind='tflite_type', num_bits=bits), f)] if f else [], time.time() - t0,
                f'quant_params_to_tflite_type({bits}) is defined and is the {bits}-bit integer type', 1)
+    # ---- bounded stand-in for the external runtime: every accepted point through the public pipeline and the interpreter
+    e2e_cases, e2e_fail = runtime_standin(rep, m, fns, settle)
+    rep.cover('runtime stand-in executed accepted points', e2e_cases > 0)
     for kid, (k, n, rp) in kf_seen.items():
         if n: rep.known_finding(k, True); rep.notes.append(f'known finding {kid}: {n} failing config(s) inside its class; witness re-executed natively: {str(rp.get("observed"))[:160]}')
     for k in rep.active_findings():
